@@ -572,6 +572,21 @@ def _guard_form(tree):
         k = 0
         while k < len(body):
             st = body[k]
+            if isinstance(st, ast.Try) and st.orelse and not st.finalbody and st.handlers:
+                # try: B / except E: H; <jump> / else: O      ->      try: B / except E: H; <jump>   followed by   O
+                # (the else-suite is not covered by the handlers in either spelling); a handler that falls through at the very
+                # end of a loop body / function gets the jump it implies
+                last = k == len(body) - 1
+                falls = [h for h in st.handlers if not _ends_in_jump(h.body)]
+                if falls and last and tail in ('loop', 'func'):
+                    for h in falls:
+                        h.body.append(ast.copy_location(ast.Continue() if tail == 'loop' else ast.Return(value=None), h.body[-1]))
+                    falls = []
+                if not falls:
+                    rest = st.orelse
+                    st.orelse = []
+                    body[k + 1:k + 1] = rest
+                    continue
             if isinstance(st, ast.If):
                 if st.orelse and _ends_in_jump(st.body) and not (len(st.orelse) == 1 and isinstance(st.orelse[0], ast.If) and False):
                     rest = st.orelse
@@ -843,6 +858,7 @@ def normalize(tree, relpath=None):
     _split_tuple_assign(tree)
     if relpath is not None and not os.environ.get('VERIF_NO_REFNORM'):
         _inline_new_constants(tree, relpath)
+        _renest_methods(tree, relpath)
         _inline_new_helpers(tree, relpath)
         _split_tuple_assign(tree)
     _fold_constants(tree)
@@ -1262,6 +1278,87 @@ class _ReplaceNode(ast.NodeTransformer):
 
 def _stmt_heads(st):
     return _head_fields(st)
+
+
+def _renest_methods(tree, relpath):
+    """N17 (reference-relative): a closure that became a private method is put back where it was.
+
+    A method that is not in the reference table, whose every use lies in ONE other method F of its class, and which is either
+    handed on as a value (`run_in_thread(self._m, a, b)`) or sits in a class whose F lost a known nested function, is F's
+    nested function under a new spelling: `def _m(self, a, b)` becomes `def _m(a, b)` inside F (self is captured again),
+    `self._m` becomes `_m`, the class-level definition goes.  Arguments stay explicit - only the place of the definition
+    changes, which is all the refactor changed."""
+    ref = _reference()
+    if not ref or relpath not in ref:
+        return
+    known = set(ref[relpath].get('functions', []))
+    present = set()
+
+    def quals(owner, q_):
+        for n in owner.body:
+            if isinstance(n, (ast.FunctionDef, ast.AsyncFunctionDef, ast.ClassDef)):
+                qq = (q_ + '.' if q_ else '') + n.name
+                present.add(qq)
+                quals(n, qq)
+    quals(tree, '')
+    missing = known - present
+    for cls in [n for n in tree.body if isinstance(n, ast.ClassDef)]:
+        methods = [m for m in cls.body if isinstance(m, (ast.FunctionDef, ast.AsyncFunctionDef))]
+        for m in list(methods):
+            if f'{cls.name}.{m.name}' in known or not m.name.startswith('_') or m.name.startswith('__'):
+                continue
+            decos = [ast.unparse(d_) for d_ in m.decorator_list]
+            if any(d_ != 'staticmethod' for d_ in decos) or m.args.vararg or m.args.kwarg:
+                continue
+            static = 'staticmethod' in decos
+            if not static and not (m.args.args and m.args.args[0].arg == 'self'):
+                continue
+            users = {}
+            other = False
+            for f in methods:
+                if f is m:
+                    if any(isinstance(x, ast.Attribute) and x.attr == m.name for x in ast.walk(f)):
+                        other = True          # recursive
+                    continue
+                for x in ast.walk(f):
+                    if isinstance(x, ast.Attribute) and x.attr == m.name and isinstance(x.value, ast.Name) and x.value.id in ('self', 'cls', cls.name):
+                        users.setdefault(f, []).append(x)
+            for n in ast.walk(tree):
+                if isinstance(n, ast.Attribute) and n.attr == m.name and not any(n is x for xs in users.values() for x in xs) \
+                        and not any(n is y for y in ast.walk(m)):
+                    other = True
+            if other or len(users) != 1:
+                continue
+            f, refs = list(users.items())[0]
+            parents = {}
+            for x in ast.walk(f):
+                for c in ast.iter_child_nodes(x):
+                    parents[id(c)] = x
+            as_value = any(not (isinstance(parents.get(id(r)), ast.Call) and parents[id(r)].func is r) for r in refs)
+            lost = any(q_.startswith(f'{cls.name}.{f.name}.') for q_ in missing)
+            if not (as_value or lost):
+                continue
+            if any(isinstance(x, ast.Name) and x.id == m.name for x in ast.walk(f)):
+                continue
+            nested = fast_copy(m)
+            nested.decorator_list = []
+            if not static:
+                nested.args.args = nested.args.args[1:]
+            k = 1 if (f.body and isinstance(f.body[0], ast.Expr) and isinstance(f.body[0].value, ast.Constant)
+                      and isinstance(f.body[0].value.value, str)) else 0
+            f.body.insert(k, nested)
+
+            class R(ast.NodeTransformer):
+                def visit_Attribute(self, n):
+                    self.generic_visit(n)
+                    if any(n is r for r in refs):
+                        return ast.copy_location(ast.Name(id=m.name, ctx=ast.Load()), n)
+                    return n
+            for st in f.body:
+                if st is not nested:
+                    R().visit(st)
+            cls.body.remove(m)
+            methods.remove(m)
 
 
 def _inline_new_helpers(tree, relpath):
